@@ -225,6 +225,42 @@ def run(ctx):
     r.check(dv is not None and (dv in used or any(dv in norm(x.value) for x in defs)), "%s#delay-used" % rae.qname,
             "the timer is not armed with the selected back-off", where(rae, sched[0].stmt))
 
+    # ---- R6 the gate handle is cleared on every path of the timer's callback; the in-progress marker on both outcomes
+    r = ctx.rule("R6", "rejoin timer handle is cleared on every path of join_and_sync; _rejoin_d is cleared by an on-both stage", 2, "B+C")
+    from ..cfg import known_falsy
+    gate_attr = "_rejoin_wait_dc"
+    stored = [n for n in cf.nodes if node_assign_value(n, gate_attr) is not None and any(call_name(c) == "callLater" for c in n.calls())]
+    cb_ok = False
+    if stored:
+        c0 = [c for c in stored[0].calls() if call_name(c) == "callLater"][0]
+        cbf = prog.resolve_callable(rae, c0.args[1]) if len(c0.args) > 1 else None
+        if cbf is not None:
+            ccb = ctx.cfg(cbf)
+            fcb = ctx.facts(cbf)
+            exits = [ccb.nodes[p] for p, lab in ccb.pred[ccb.exit.id]]
+            starts = [n for n in ccb.nodes if any(prog.resolve_call(cbf, c) is jas for c in n.calls())]
+            pts = exits + starts
+            cb_ok = bool(pts) and all(known_falsy(fcb[n.id], "self." + gate_attr) or (
+                node_assign_value(n, gate_attr) is not None) for n in pts)
+    r.check(cb_ok, "%s#timer-handle-cleared-on-every-path" % jouter.qname,
+            "the rejoin timer's callback can return with _rejoin_wait_dc still pointing at the fired timer; rejoin_after_error arms a "
+            "new timer only when that handle is falsy", where(jouter, jouter.node),
+            "timer fires while a join is outstanding (early return); the next retriable failure marks rejoin-needed but schedules "
+            "nothing: the member is idle for ever")
+    regs_j = registrations(jouter, prog)
+    al = None
+    from .util import aliases_of
+    al = aliases_of(jouter, "self._rejoin_d")
+    clr = []
+    for g in regs_j:
+        if g["root"] in al and g["cb"] is not None:
+            h = prog.resolve_callable(jouter, g["cb"])
+            if h is not None and "_rejoin_d" in prog.direct_writes(h):
+                clr.append(g)
+    r.check(len(clr) == 1 and clr[0]["kind"] == "both", "%s#in-progress-marker-cleared-on-both" % jouter.qname,
+            "_rejoin_d is not cleared by an on-both stage of the join's Deferred (found %s)" % [g["kind"] for g in clr], where(jouter, jouter.node),
+            "an exception escaping the join routine leaves `rejoin in progress` set for ever: every later rejoin returns at once")
+
     # ---- R3 lookup retries
     r = ctx.rule("R3", "coordinator lookup: every Kafka-error arm and the no-coordinator arm schedule join_and_sync", 2, "B")
     ok_h = gcb.nested.get("_get_coordinator_success")
@@ -298,6 +334,12 @@ MUTANTS = [
      "new": "        self._rejoin_needed = False", "expect": "C17.R4"},
     {"id": "cleanup-swallows", "file": "_group.py", "old": "            self._rejoin_d = None\n            return result\n",
      "new": "            self._rejoin_d = None\n", "expect": "C17.R1"},
+    {"id": "timer-handle-reset-after-guards", "file": "_group.py",
+     "old": "        if self._rejoin_wait_dc:\n            self._rejoin_wait_dc = None\n\n        if not self._rejoin_needed:\n            log.debug(\"join_and_sync: rejoin not needed\")\n            return\n\n        # prevent multiple concurrent request situations\n        if self._rejoin_d:\n            # XXX: This should throw, not silently ignore.\n            log.debug(\"join_and_sync: rejoin in progress\")\n            return\n",
+     "new": "        if not self._rejoin_needed:\n            log.debug(\"join_and_sync: rejoin not needed\")\n            return\n\n        # prevent multiple concurrent request situations\n        if self._rejoin_d:\n            # XXX: This should throw, not silently ignore.\n            log.debug(\"join_and_sync: rejoin in progress\")\n            return\n\n        self._rejoin_wait_dc = None\n",
+     "expect": "C17.R6", "note": "seeded C17-1"},
+    {"id": "cleanup-on-success-only", "file": "_group.py", "old": "        d.addBoth(cleanup_rejoin_d).addErrback(rejoin_d_errback)",
+     "new": "        d.addCallbacks(cleanup_rejoin_d, rejoin_d_errback)", "expect": "C17.R6", "note": "seeded C17-2"},
     {"id": "nonkafka-not-surfaced", "file": "_group.py",
      "old": "            self.on_group_leave()\n            self.stop(errback_result=result)\n            return\n",
      "new": "            self.on_group_leave()\n            return\n", "expect": ["C17.R1", "C17.R2"]},
